@@ -60,3 +60,40 @@ Theorem gen_C08_splitArgs : forall args maxLen,
 Proof. exact go_splitArgs_eq. Qed.
 Print Assumptions gen_C08_cutNewLines.
 Print Assumptions gen_C08_splitArgs.
+
+(* generated-code tie, command methods: the Gallina TRANSLATION of every method body (the list
+   of strings it sends on conn.out through Raw; Config fields it reads come first, the
+   variadic parameter is a list) is what the model emit says, for all arguments
+   (Proofs/GenEqCmd.v) *)
+From Verif Require Import GenEqCmd.
+Theorem gen_C08_commands : forall cfg,
+  let E := emit to_upper in
+  let n := cc_split_len cfg in
+  (forall x, go_client_Conn_Raw x = E MRaw cfg [x])
+  /\ (forall p, go_client_Conn_Pass p = E MPass cfg [p])
+  /\ (forall k, go_client_Conn_Nick k = E MNick cfg [k])
+  /\ (forall i r, go_client_Conn_User i r = E MUser cfg [i; r])
+  /\ (forall c key, go_client_Conn_Join c key = E MJoin cfg (c :: key))
+  /\ (forall c ms, go_client_Conn_Part c ms = E MPart cfg (c :: ms))
+  /\ (forall c k ms, go_client_Conn_Kick c k ms = E MKick cfg (c :: k :: ms))
+  /\ (forall ms, go_client_Conn_Quit (cc_quit_message cfg) ms = E MQuit cfg ms)
+  /\ (forall k, go_client_Conn_Whois k = E MWhois cfg [k])
+  /\ (forall k, go_client_Conn_Who k = E MWho cfg [k])
+  /\ (forall t msg, go_client_Conn_Privmsg n t msg = E MPrivmsg cfg [t; msg])
+  /\ (forall t msg, go_client_Conn_Notice n t msg = E MNotice cfg [t; msg])
+  /\ (forall t c args, go_client_Conn_Ctcp n t c args = E MCtcp cfg (t :: c :: args))
+  /\ (forall t c args, go_client_Conn_CtcpReply n t c args = E MCtcpReply cfg (t :: c :: args))
+  /\ (forall t, go_client_Conn_Version n t = E MVersion cfg [t])
+  /\ (forall t msg, go_client_Conn_Action n t msg = E MAction cfg [t; msg])
+  /\ (forall c ts, go_client_Conn_Topic c ts = E MTopic cfg (c :: ts))
+  /\ (forall t ms, go_client_Conn_Mode t ms = E MMode cfg (t :: ms))
+  /\ (forall ms, go_client_Conn_Away ms = E MAway cfg ms)
+  /\ (forall k c, go_client_Conn_Invite k c = E MInvite cfg [k; c])
+  /\ (forall u p, go_client_Conn_Oper u p = E MOper cfg [u; p])
+  /\ (forall u p, go_client_Conn_VHost u p = E MVHost cfg [u; p])
+  /\ (forall m, go_client_Conn_Ping m = E MPing cfg [m])
+  /\ (forall m, go_client_Conn_Pong m = E MPong cfg [m])
+  /\ (forall s caps, go_client_Conn_Cap s caps = E MCap cfg (s :: caps))
+  /\ (forall m, go_client_Conn_Authenticate m = E MAuthenticate cfg [m]).
+Proof. exact go_commands_eq. Qed.
+Print Assumptions gen_C08_commands.
